@@ -32,7 +32,7 @@ Why the existing tests cannot settle it: {p['why_tests_cant']}
 
 Files the property is anchored in: {', '.join(p['anchors']['files'])}
 
-Focus for your change: other people have already seeded the changes listed below for this property; yours must be a DIFFERENT idea (different mechanism, different clause of the statement, or a different part of the API surface that the statement covers). First list the exported functions/methods of the anchored files and prefer one that none of the earlier ideas below touches. This round, aim at the RESULT/ERROR CONTRACT the statement spells out: which error value is returned in which situation (and exactly then), zero value versus real value, ok/more flags of channel receives, an error that is swallowed, overwritten, wrapped differently or returned together with a side effect that should not have happened (or without one that should), a boolean status (IsClosed/IsDone/IsStarted/IsPresent-like) that lags or leads the real state. The wrong result must only appear in a specific situation (state, timing, configuration), not always. Make sure the change really contradicts the statement as written (quote the clause it breaks in your NOTES.md) and is not merely a behaviour change the statement does not talk about. Prefer bugs that need a rare combination: a particular interleaving AND a particular configuration, two edits that are each harmless alone, or state that only goes wrong on the second/third use of the same object. Also consider code the anchored files DEPEND on (helpers in other files of the library that the anchored code calls), constructor variants, getters/setters and zero/negative/huge parameter values that the earlier ideas did not touch; setters or configuration changed while the object is in use; one object, option value or caller-owned slice/map reused across several calls; error, timeout, cancellation and already-closed paths; nil callbacks.
+Focus for your change: other people have already seeded the changes listed below for this property; yours must be a DIFFERENT idea (different mechanism, different clause of the statement, or a different part of the API surface that the statement covers). First list the exported functions/methods of the anchored files and prefer one that none of the earlier ideas below touches. This round, look at the most recent commits of this checkout (`git log -15 --stat`, `git show <sha>`): several of them are bug fixes in the files this property is anchored in. Write a change that a later maintainer could plausibly make in or right next to one of those fixes (simplifying it, generalising it, moving it, 'optimising' it, applying the same pattern to a sibling function but slightly wrong) and that re-opens a narrow version of the old problem or creates a new one beside it - without simply reverting the fix. If no recent fix touches this property's files, fall back to a function that neither the fixes nor the earlier ideas touch. Make sure the change really contradicts the statement as written (quote the clause it breaks in your NOTES.md) and is not merely a behaviour change the statement does not talk about. Prefer bugs that need a rare combination: a particular interleaving AND a particular configuration, two edits that are each harmless alone, or state that only goes wrong on the second/third use of the same object. Also consider code the anchored files DEPEND on (helpers in other files of the library that the anchored code calls), constructor variants, getters/setters and zero/negative/huge parameter values that the earlier ideas did not touch; setters or configuration changed while the object is in use; one object, option value or caller-owned slice/map reused across several calls; error, timeout, cancellation and already-closed paths; nil callbacks.
 {ex}
 """)
 print("prepared", len(claimed), "worktrees with suffix", suffix)
